@@ -32,7 +32,7 @@ def step (line : String) : String :=
     else
     let arity1 := ["to_string", "to_number", "parse_float", "str_to_number", "to_negative", "abstract_max",
       "abstract_min", "parse_float_add", "parse_float_mul", "ser", "to_number_value",
-      "spec.to_number", "spec.parse_float", "spec.str_to_number", "spec.truthy"]
+      "spec.to_number", "spec.parse_float", "spec.string_to_number"]
     let n := if arity1.contains cmd then 1 else 2
     match parseMany n toks with
     | none => "bad-op"
